@@ -245,3 +245,6 @@ pub use util::{
     dn_escape, get_url_params, ldap_escape, ldap_str_unescape, ldap_unescape, LdapUrlExt,
     LdapUrlParams,
 };
+
+#[cfg(ldap3_verif)]
+pub mod verif;
